@@ -479,4 +479,5 @@ def run(ctx):
   check_tcp_fields(ctx)
   check_iso6937_dispatch(ctx)
   check_newline_reset(ctx)
+  common.check_item_handlers(ctx, ["ttconv.stl.reader", "ttconv.stl.datafile", "ttconv.stl.tf", "ttconv.stl.iso6937"])
   common.check_history_independence(ctx, [n for n in ctx.ix.modules if n.startswith("ttconv.stl")] + ["ttconv.time_code"])
